@@ -103,15 +103,15 @@ def class_def(cname, cls, commands):
         if issubclass(cls, commands.RequireCommand) and cls.complete_cb is commands.RequireCommand.complete_cb:
             special = "require"
         else:
-            raise Unmodelled("complete_cb override in %s" % cname)
+            SOFT_PROBLEMS.append("complete_cb override in %s" % cname)      # behaviour the model does not have: the tie is broken, the data still stands
     if cls.reassign_arguments is not commands.Command.reassign_arguments:
         if issubclass(cls, commands.HasflagCommand) and cls.reassign_arguments is commands.HasflagCommand.reassign_arguments:
             special = "hasflag"
         else:
-            raise Unmodelled("reassign_arguments override in %s" % cname)
+            SOFT_PROBLEMS.append("reassign_arguments override in %s" % cname)
     for meth in ("check_next_arg", "iscomplete", "tosieve", "addchild", "get_type", "has_arguments"):
         if getattr(cls, meth) is not getattr(commands.Command, meth):
-            raise Unmodelled("%s override in %s" % (meth, cname))
+            SOFT_PROBLEMS.append("%s override in %s" % (meth, cname))
     try:
         ef = cls.get_expected_first(cls.__new__(cls))
     except Exception as e:  # noqa
@@ -148,7 +148,10 @@ def extract_table():
         if not reachable:
             unreachable.append(cname)
             continue
-        table.append(class_def(cname, obj, commands))
+        try:
+            table.append(class_def(cname, obj, commands))
+        except Unmodelled as e:
+            SOFT_PROBLEMS.append("%s: %s (definition left out of the table)" % (cname, e))
     return table, unreachable
 
 
